@@ -1906,6 +1906,21 @@ pub enum KStep {
     Open { token: Option<String>, footer: Option<String>, ia: Option<String> },
 }
 
+/// does the typed constructor of exp / nbf / iat accept this text on the tree under test? (a panic counts as "no")
+pub fn time_claim_accepted(which: &str, text: &str) -> bool {
+    let (o, _) = guard(
+        || -> Result<(), PasetoClaimError> {
+            match which {
+                "exp" => ExpirationClaim::try_from(text).map(|_| ()),
+                "nbf" => NotBeforeClaim::try_from(text).map(|_| ()),
+                _ => IssuedAtClaim::try_from(text).map(|_| ()),
+            }
+        },
+        claim_err,
+    );
+    o.is_ok()
+}
+
 pub fn core_key_session(p: P, key: &KeyMat, steps: &[KStep]) -> Vec<Out<String>> {
     dispatch!(p, T => T::core_key_session(key, steps))
 }
